@@ -75,7 +75,7 @@ def staged (args impl : List String) : Option (String × String) := do
 /-- `ramp <startRate> <endRate> <unitNs> <durationNs> <queries>`;
 impl: `<durationNs> <intervalNs> <rates>` | `err` -/
 def ramp (args impl : List String) : Option (String × String) := do
-  match args with
+  match args.take 5 with      -- (a sixth argument only tells the harness where on the time line the queries start)
   | [s, e, unit, dur, qs] =>
     let s ← s.toInt?; let e ← e.toInt?; let unit ← unit.toInt?; let dur ← dur.toInt?
     let qs ← parseInts qs
